@@ -91,11 +91,25 @@ def gen(rng, k, sms):
             behaviour.setdefault(ph, []).extend(lst)
         cycles.append(cyc)
     methods = sorted({c['pool']['start_method'] for c in cycles})
+    # the caller's own SIGINT disposition (installed after the warm-up, before the baseline is taken): the default handler,
+    # SIG_DFL, SIG_IGN or a handler of its own.  Whatever it is, it is what every cycle has to leave behind.  (No signal
+    # is sent in these scenarios: SIG_DFL would end the driver.)
+    disp = None
+    if k % 3 == 1:
+        disp = ['SIG_DFL', 'SIG_IGN', 'custom'][(k // 3) % 3]
+        for cyc in cycles:
+            if cyc['cause'] == 'sigint':
+                repl = mk_cycle(rng, rng.choice(['success', 'task_exception', 'stop_and_join', 'abandoned_imap']), sm, cyc['calls'][0].get('base', 1000) if cyc['calls'] else 1000)
+                for ph, lst in repl.pop('behaviour').items():
+                    behaviour.setdefault(ph, []).extend(lst)
+                cyc.clear()
+                cyc.update(repl)
     import copy
     cycles = cycles + copy.deepcopy(cycles)          # the same cycles a second time: nothing may accumulate
     return {'id': f'l{k}', 'pool': {'n_jobs': 1, 'start_method': sm}, 'calls': [], 'cycles': cycles, 'budget': 150, 'behaviour': behaviour,
             'npass': len(cycles) // 2,
-            'warmup': methods, 'warm_insights': True, 'warm_progress_bar': True, 'env': {'VERIF_TASK_SLEEP': '0.005'}}
+            'warmup': methods, 'warm_insights': True, 'warm_progress_bar': True, 'env': {'VERIF_TASK_SLEEP': '0.005'},
+            'sigint_disposition': disp}
 
 
 def live(snap):
